@@ -56,21 +56,47 @@ def build_sources(rng, paths, deps, main_deps):
     vals = {}
     srcs = {}
     specs = {}
+    rex = {i: {} for i in range(n)}       # names module i re-exports: name -> value of the constant behind it
+    live = {i: {} for i in range(n)}      # live-binding re-exports: name of n -> (name of bump, root module)
     for i in reversed(range(n)):
         d = paths[i].rsplit("/", 1)[0]
         lines, terms, sp = [], [], []
         for j in deps[i]:
             s = spell(rng, d, paths[j])
             sp.append(s)
-            kind = rng.choice(["named", "ns", "default", "reexport"])
+            kind = rng.choice(["named", "ns", "default", "reexport", "reexport"])
             if kind == "named":
                 lines.append("import { v as v%d } from '%s';" % (j, s)); terms.append(("v%d" % j, vals[j]))
+                if rex[j] and rng.random() < 0.7:
+                    # consume a name that j only passes on (possibly renamed on the way)
+                    nm = rng.choice(sorted(rex[j]))
+                    lines.append("import { %s as c%d_%s } from '%s';" % (nm, j, nm, s)); sp.append(s); terms.append(("c%d_%s" % (j, nm), rex[j][nm]))
             elif kind == "ns":
                 lines.append("import * as N%d from '%s';" % (j, s)); terms.append(("N%d.v" % j, vals[j]))
+                if rex[j] and rng.random() < 0.7:
+                    nm = rng.choice(sorted(rex[j]))
+                    terms.append(("N%d.%s" % (j, nm), rex[j][nm]))
             elif kind == "default":
                 lines.append("import D%d from '%s';" % (j, s)); terms.append(("D%d" % j, vals[j] * 2))
             else:
                 lines.append("export { v as r%d } from '%s';" % (j, s))
+                rex[i]["r%d" % j] = vals[j]
+                lines.append("export { n as rn%d, bump as rb%d } from '%s';" % (j, j, s)); sp.append(s)
+                live[i]["rn%d" % j] = ("rb%d" % j, j)
+                # pass on what j itself only passes on: unrenamed, or renamed again (a rename on a NON-final hop of the chain)
+                for nm in sorted(rex[j]):
+                    if rng.random() < 0.6:
+                        out = nm if rng.random() < 0.4 else "q%d_%s" % (j, nm)
+                        lines.append("export { %s } from '%s';" % (nm if out == nm else "%s as %s" % (nm, out), s)); sp.append(s)
+                        rex[i][out] = rex[j][nm]
+                for nm in sorted(live[j]):
+                    if rng.random() < 0.6:
+                        bn, root = live[j][nm]
+                        out, outb = ("l%d_%s" % (j, nm), "l%d_%s" % (j, bn)) if rng.random() < 0.6 else (nm, bn)
+                        if out in live[i]:
+                            continue
+                        lines.append("export { %s, %s } from '%s';" % (nm if out == nm else "%s as %s" % (nm, out), bn if outb == bn else "%s as %s" % (bn, outb), s)); sp.append(s)
+                        live[i][out] = (outb, root)
                 lines.append("import { v as v%d } from '%s';" % (j, s)); sp.append(s); terms.append(("v%d" % j, vals[j]))
         vals[i] = (i + 1) + 3 * sum(t[1] for t in terms)
         body = " + ".join(["%d" % (i + 1)] + ["3 * " + t[0] for t in terms])
@@ -80,17 +106,32 @@ def build_sources(rng, paths, deps, main_deps):
         lines.append("export let n = 0; export function bump() { n = n + 1; return n; }")
         srcs[paths[i]] = "\n".join(lines)
         specs[paths[i]] = sp
-    mlines, mterms, msp = [], [], []
+    mlines, mterms, msp, mexp = [], [], [], []
     for j in main_deps:
         s = spell(rng, "/m", paths[j]); msp.append(s)
-        mlines.append("import { v as v%d } from '%s';" % (j, s)); mterms.append("v%d" % j)
+        mlines.append("import { v as v%d } from '%s';" % (j, s)); mterms.append("v%d" % j); mexp.append(vals[j])
+        for nm in sorted(rex[j]):
+            if rng.random() < 0.5:
+                mlines.append("import { %s as m%d_%s } from '%s';" % (nm, j, nm, s)); msp.append(s); mterms.append("m%d_%s" % (j, nm)); mexp.append(rex[j][nm])
     # live binding through the exporter and, when possible, through a re-export chain
     j = main_deps[0]
     s = spell(rng, "/m", paths[j]); msp.append(s)
     mlines.append("import { n as liveN, bump } from '%s';" % s)
+    bumps = {j: 2}
+    calls = ["bump()", "bump()"]
+    chain_terms = []
+    for k in main_deps:
+        for nm in sorted(live[k]):
+            if rng.random() < 0.5 and len(chain_terms) < 3:
+                bn, root = live[k][nm]
+                s2 = spell(rng, "/m", paths[k]); msp.append(s2)
+                mlines.append("import { %s as L%d_%s, %s as B%d_%s } from '%s';" % (nm, k, nm, bn, k, nm, s2))
+                calls.append("B%d_%s()" % (k, nm))
+                bumps[root] = bumps.get(root, 0) + 1
+                chain_terms.append(("L%d_%s" % (k, nm), root))
     mlines.append("console.log('exec:main');")
-    mlines.append("bump(); bump(); [%s, liveN].join(',')" % ", ".join(mterms))
-    expected = ",".join([str(vals[j]) for j in main_deps] + ["2"])
+    mlines.append("%s; [%s].join(',')" % ("; ".join(calls), ", ".join(mterms + ["liveN"] + [t for t, _ in chain_terms])))
+    expected = ",".join([str(x) for x in mexp] + [str(bumps[j])] + [str(bumps[r]) for _, r in chain_terms])
     return "\n".join(mlines), srcs, expected, specs, msp
 
 
